@@ -183,7 +183,12 @@ def run(case):
             except Exception:
                 if out.check(os.path.isfile(path), "write:target_deleted_despite_overwrite_false", ext):
                     out.check(open(path, "rb").read() == pre, "write:target_modified_despite_overwrite_false", ext)
-            return out
+            if case["seed"] % 2 or out.violations or not os.path.isfile(path):
+                return out
+            # fault path: the refusal above is followed by the user removing the target; the same request, to the now free
+            # path, is an ordinary write and has to produce the file
+            out.label("write:refused_then_target_removed_then_written")
+            os.unlink(path)
         ok, _ = call(out, "cryomap.write", lambda: cryomap.write(src, path, **kwargs))
         if not ok:
             return out
